@@ -60,7 +60,7 @@ pub fn run_check(id: &str, tier: Tier) -> i32 {
     let mut parts = Vec::new();
     let mut assumptions: Vec<String> = Vec::new();
     let extra: BTreeMap<String, Value> = BTreeMap::new();
-    let level = "exploration";
+    let level = if id == "C07" { "fault_enumeration" } else { "exploration" };
     match id {
         "C10" => {
             parts.push(run_engine(&EncEngine { big: false }, &ctx, scale(tier, 120_000, 3_000_000)));
